@@ -176,7 +176,13 @@ def run_correspondence(pid, P, tier, seed, work, harness, run_model, load_tsv, k
             o, _ = pr.communicate(timeout=7000)
             if pr.returncode != 0:
                 bad += 1
-                mism.append({"id": "f32all-%d" % i, "op": "f32all", "args": [str(i), "16"], "impl": o[-600:], "model": "every finite f32 reads back bit-identically", "kind": "api"})
+                case = {"id": "f32all-%d" % i, "op": "f32all", "args": [str(i), "16"], "impl": o[-600:], "model": "every finite f32 reads back bit-identically", "kind": "api"}
+                k = classify_known(pid, case, known)      # the listed values of a recorded finding, and nothing else in that shard
+                if k:
+                    d = known_hits.setdefault(k[0], [k[1], 0])
+                    d[1] += 1
+                else:
+                    mism.append(case)
         stats.setdefault("stats", {})["f32 values swept (all bit patterns)"] = 2 ** 32
         stats["evaluations"] = stats.get("evaluations", 0) + 2 ** 32
     # feature builds of the harness (sort_keys, arbitrary_precision): the same property run in each
